@@ -214,7 +214,29 @@ fn gen_frame_pdu(r: &mut Rng, dir: Dir) -> Vec<u8> {
     }
 }
 
+/// a frame whose payload itself contains a complete well-formed frame of the same transport and direction
+/// (plus a few more bytes): resynchronising inside an unfinished frame would report the embedded one
+fn gen_nested_frame(r: &mut Rng, tr: &str, dir: Dir) -> Vec<u8> {
+    let inner = loop {
+        let p = gen_frame_pdu(r, dir);
+        if p.len() <= 24 { break if tr == "rtu" { rtu_frame(r.u8(), &p) } else { tcp_frame(r.u16(), r.u8(), &p) }; }
+    };
+    let mut data = r.rbytes(0, 3);
+    data.extend(&inner);
+    data.extend(r.rbytes(1, 4));
+    if data.len() % 2 == 1 { data.push(r.u8()); }
+    let bc = data.len();
+    let pdu = match dir {
+        Dir::Req => { let mut p = vec![0x17, 0, 1, 0, 2, r.u8(), r.u8(), 0, (bc / 2) as u8, bc as u8]; p.extend(&data); p }
+        Dir::Rsp => { let mut p = vec![*r.pick(&[3u8, 4, 0x17]), bc as u8]; p.extend(&data); p }
+    };
+    if tr == "rtu" { rtu_frame(r.u8(), &pdu) } else { tcp_frame(r.u16(), r.u8(), &pdu) }
+}
+
 fn gen_frame(r: &mut Rng, tr: &str, dir: Dir) -> Vec<u8> {
+    if r.below(12) == 0 {
+        return gen_nested_frame(r, tr, dir);
+    }
     if tr == "tcp" && r.below(30) == 0 {
         // MBAP has no 256-byte limit: PDUs with the largest byte counts (254..=265 bytes)
         let p = match dir {
